@@ -264,8 +264,21 @@ pub fn scenario(g: &mut G, ctx: &RunCtx) -> RunReport {
     script.acts.push(Act::Send(b"HTTP/1.1 200 OK\r\nContent-Length: 2\r\n\r\nok".to_vec()));
     script.acts.push(Act::Fin);
     let url = plan.url(&format!("http://{}", bodyx::HOST_IP));
+    // (no draw) one plan in five is prepared once and sent three times, every send succeeding: each connection
+    // carries the same faithful request again (a body that can be written once only, a header that piles up)
+    let times = if !body_fails && (plan.headers.len() + plan.params.len() + url.len()) % 5 == 2 { 3 } else { 1 };
+    if times > 1 {
+        g.probe("prepared-request-sent-three-times");
+    }
     let ran = bodyx::run_origin(&script, &faults, ctx, || {
         let rb = plan.new_builder(&url);
+        if times > 1 {
+            let res = plan.send_prepared(rb, times);
+            return match res.iter().find(|r| r.is_err()) {
+                Some(Err(e)) => Err(e.clone()),
+                _ => Ok(()),
+            };
+        }
         match plan.send(rb) {
             Ok(resp) => resp.bytes().map(|_| ()).map_err(|e| format!("body:{}", err_kind(&e))),
             Err(e) => Err(err_kind(&e)),
@@ -276,6 +289,33 @@ pub fn scenario(g: &mut G, ctx: &RunCtx) -> RunReport {
     let verdict = match &ran.observed {
         None => violation("hang", "run torn down"),
         Some(Err(m)) => violation(format!("panic:{}:{}", crate::props::c02::panic_site(m), plan.body_name()), m.clone()),
+        Some(Ok(res)) if times > 1 => {
+            let mut v = Verdict::Pass;
+            if let Err(e) = res {
+                if !e.starts_with("prepare:") && !e.starts_with("build:") {
+                    v = violation(format!("repeat:send-failed:{}:{}", e, plan.body_name()), format!("one of {} sends of the same prepared request failed with {}", times, e));
+                }
+            } else if ran.history.conns.len() != times {
+                v = violation("repeat:connection-count", format!("{} connections for {} sends", ran.history.conns.len(), times));
+            }
+            if v == Verdict::Pass && res.is_ok() {
+                for (k, c) in ran.history.conns.iter().enumerate() {
+                    let bytes = c.client_bytes();
+                    v = match parse_request(&bytes) {
+                        ReqParse::Incomplete => violation(format!("repeat:request-incomplete:{}", plan.body_name()), format!("send #{}: the {} bytes written do not form a complete request", k + 1, bytes.len())),
+                        ReqParse::Malformed(m) => violation(format!("repeat:request-malformed:{}", plan.body_name()), format!("send #{}: {}", k + 1, m)),
+                        ReqParse::Complete(r) => match reqgen::check_request(&plan, &r, bytes.len() - r.total_len, None, true) {
+                            Err((c, m)) => violation(format!("repeat:{}", c), format!("send #{} of the same prepared request: {}", k + 1, m)),
+                            Ok(()) => Verdict::Pass,
+                        },
+                    };
+                    if v != Verdict::Pass {
+                        break;
+                    }
+                }
+            }
+            v
+        }
         Some(Ok(res)) => {
             if ran.history.conns.len() != 1 {
                 violation("connection-count", format!("{} connections for one request (result {:?})", ran.history.conns.len(), res))
